@@ -44,6 +44,9 @@ CHECKS["C04"] = dict(design="4/C04", technique="TLA+ denotational execution sema
 CHECKS["C20"] = dict(design="4/C20", technique="TLA+ edit algebra with expected classification and soundness predicates (GqlDiff), TLC-enumerated single and paired edits; replay into diff_schema on code-built schemas (two type orders), operation pool validated by the real validator",
     text="spec/GqlDiff.tla defines elementary edits (add / remove / retype at every wrapper variant / default / deprecation / member / location / kind) of a base schema with the expected change classes and the predicates OutOk / InOk (checked reflexive and converse on the model); TLC enumerates every single edit and pairs touching different types. Each pair (old, new) is realised in code (enum internal values, reversed type order) and diffed: equal schemas report nothing, every edit is reported with an expected class naming the element (safe retypings may be silent), no BREAKING report implies no breaking edit by the predicates and every operation of a pool valid on the old schema stays valid on the new one, and the result does not depend on the order of types.",
     note="One base schema; 'naming the element' = message contains the element name.")
+CHECKS["C13"] = dict(design="4/C13", technique="TLA+ labelled violation algebra + covariance predicate (GqlSchemaValidate) and register/validate state machine (GqlSchemaMemo) enumerated by TLC; replay into validate_schema and Schema.validate()",
+    text="spec/GqlSchemaValidate.tla injects every labelled rule violation (names, empty types, duplicates, input/output positions, interface implementation incl. covariance through list and non-null wrappers, argument compatibility, union members, root types) into a valid base schema, every pair on different types, and the 6 x 6 wrapper matrix whose validity is decided by the covariance predicate; each is realised as a code-built schema in both type orders: validate_schema must raise exactly for the invalid ones and report both violations of a pair. spec/GqlSchemaMemo.tla enumerates sequences of register_resolver (five signature classes, shared function objects, overrides) and validate(): after every step the real verdict must equal the verdict of the current state.",
+    note="Rules in scope are those the property enumerates; attribution through the edited element's name in the error list.")
 NOT_YET = {
 }
 
